@@ -189,7 +189,7 @@ def _run_tests(args):
     subprocess.run(['rm', '-rf', S])
     os.makedirs(S)
     subprocess.run(['cp', '-r', '/repo/src', '/repo/test', S])
-    for f in ('setup.py', 'pyproject.toml', 'pytest.ini', 'setup.cfg', 'tox.ini'):
+    for f in ('setup.py', 'pyproject.toml', 'pytest.ini', 'setup.cfg', 'tox.ini', 'conftest.py'):
         if os.path.exists('/repo/' + f):
             subprocess.run(['cp', '/repo/' + f, S])
     r = subprocess.run(['patch', '-s', '-p1', '-i', os.path.join(outdir, m['id'] + '.diff')], cwd=S, capture_output=True, text=True)
